@@ -1,4 +1,5 @@
 import LtVerif.Model.Burl
+import LtVerif.Model.PathPtr
 import LtVerif.Model.Docroot
 namespace Driver
 open LtVerif LtVerif.B
@@ -218,9 +219,11 @@ def urlLine (toks : List String) : String :=
   | some r => r
   | none =>
   match toks with
-  | ["dec", h] => withHex h fun b => toHex (urldecodePath b)
-  | ["simp", h] => withHex h fun b => toHex (pathSimplify b)
-  | ["decsimp", h] => withHex h fun b => toHex (pathSimplify (urldecodePath b))
+  -- the C is compared with the cursor-level transcriptions (Model/PathPtr.lean); Proofs/PathPtr.lean
+  -- proves them equal to the specifications `pathSimplify` / `urldecodePath` (NUL-free input)
+  | ["dec", h] => withHex h fun b => toHex (urldecodePathC b)
+  | ["simp", h] => withHex h fun b => toHex (pathSimplifyPtr b)
+  | ["decsimp", h] => withHex h fun b => toHex (pathSimplifyPtr (urldecodePathC b))
   | ["norm", fl, h] => withHex h fun b =>
     match fl.toNat? with
     | none => "bad-op"
